@@ -110,6 +110,7 @@ class Interp:
         self._modconst_cache = {}
         self._attr_read_cache = {}
         self._lift_cache = {}
+        self._default_cache = {}
         self.trace = []
         self.prefix = []
         self.events = []
@@ -450,7 +451,14 @@ class Interp:
         try:
             for k, v in list(env.items()):
                 if isinstance(v, tuple) and len(v) == 2 and v[0] == "__default__":
-                    env[k] = self.eval(v[1], frame)
+                    # Python evaluates a default once, at definition time: one object shared by every call
+                    dk = (id(func.node), k)
+                    if dk not in self._default_cache:
+                        dv = self.eval(v[1], frame)
+                        self._default_cache[dk] = dv
+                        if isinstance(dv, (list, dict, Obj, CycleVal)):
+                            self.shared_ids[id(dv)] = f"default argument {k!r} of {func.short}"
+                    env[k] = self._default_cache[dk]
             try:
                 self.exec_block(func.node.body, frame)
             except _Return as r:
@@ -856,7 +864,7 @@ class Interp:
             del self._modconst_cache[key]
             raise
         self._modconst_cache[key] = v
-        if isinstance(v, (Obj, list, dict)):
+        if isinstance(v, (Obj, list, dict, CycleVal)):
             self.shared_ids[id(v)] = f"{module.name}.{name}"
         return v
 
@@ -876,7 +884,7 @@ class Interp:
         finally:
             self.cur_frame = saved
         self._class_attr_cache[key] = v
-        if isinstance(v, (Obj, list, dict)):
+        if isinstance(v, (Obj, list, dict, CycleVal)):
             self.shared_ids[id(v)] = f"{cls.short}.{name}"
         return v
 
